@@ -2103,3 +2103,10 @@ V(id='c07-chunk-helper-not-splitting', prop='C07', file='mpmath/libmp/libmpf.py'
 V(id='c07-benign-smaller-chunks', prop='C07', file='mpmath/libmp/libmpf.py',
   old="    if len(x) <= 600:\n        return int(x, base)", new="    if len(x) <= 400:\n        return int(x, base)",
   expect='silent')
+
+# ---- C14 C-R16 extended to points at infinity / undefined ranges (fix c90ef2f): no nan endpoint ----
+V(id='c14-div-zero-lower-nan-unmapped', prop='C14', file='mpmath/libmp/libmpi.py',
+  old="            b = finf\n            if a == fnan: a = fzero\n", new="            b = finf\n", expect='fire:C-R16:mpi_div')
+V(id='c14-add-nan-unmapped', prop='C14', file='mpmath/libmp/libmpi.py',
+  old="    a = mpf_add(sa, ta, prec, round_floor)\n    b = mpf_add(sb, tb, prec, round_ceiling)\n    if a == fnan: a = fninf\n",
+  new="    a = mpf_add(sa, ta, prec, round_floor)\n    b = mpf_add(sb, tb, prec, round_ceiling)\n", expect='fire:C-R16:mpi_add')
